@@ -25,7 +25,7 @@ TIMEOUT = {"quick": 900, "thorough": 7000}
 def cases(tier, seed):
     from vlib.gen import HALO_CLASSES
 
-    n = 192 if tier == "quick" else 16000
+    n = 192 if tier == "quick" else 48000
     return [{"seed": seed, "idx": i, "halo_class": HALO_CLASSES[i % len(HALO_CLASSES)]} for i in range(n)]
 
 
